@@ -209,4 +209,15 @@ CHECKS['C19'] = {
     'assumptions': ['std::fstream is modelled: bytes written through ostream::write are appended to an engine-side file; the native replay reads the real file'],
 }
 
+CHECKS['C16'] = {
+    'jobs': {'quick': [J('c16_http.cpp', ['NREQ=2'], wall=280, markers=(1, 2, 3), opts={'max_instr': 20000000})],
+             'thorough': [J('c16_http.cpp', ['NREQ=3'], wall=1700, markers=(1, 2, 3), opts={'max_instr': 20000000})]},
+    'bounds': {'quick': 'every sequence of 2 requests from {registered handler, unknown path (404), ranged content (206), normalised path with Connection: close, redirect (301), stalled path, malformed}, keep-alive flag on/off, '
+                        'the byte stream cut into up to 3 writes at 6 candidate positions (inside the request line, inside the blank line, at / just after the request boundary, before the last byte), writes back to back or 10 ms apart; '
+                        'then a second client, then stop(), a refused connect and a re-bind of the port',
+               'thorough': 'sequences of 3 requests'},
+    'outside': ['bodies larger than a few bytes', 'more than 3 writes per stream', 'stop() while a connection is open'],
+    'assumptions': ['printf/formatting is stubbed'],
+}
+
 NOT_APPLICABLE = {}
